@@ -5,7 +5,7 @@ import LyModel.Iff.LemmasRangeGram
 
 Model: `LyModel.Range.compileRange` (= `lys_compile_type_range`: the part parser `loop` and the base-restriction
 `walk`), `validate` (= `lyplg_type_validate_range`).  `fx : RFix` says which of the candidate repairs fixes/F30.diff,
-fixes/F51.diff the modelled source contains (`{}` = the pinned tree).
+fixes/F75.diff the modelled source contains (`{}` = the pinned tree).
 -/
 namespace LyModel.Props.C11
 open LyModel LyModel.Range
@@ -26,7 +26,7 @@ example : Ascending [⟨-5, -5⟩, ⟨1, 10⟩, ⟨20, 20⟩] ∧ validate [⟨-
   refine ⟨?_, by decide, by decide⟩
   simp [Ascending]
 
-/-- without the ascending order the walk is incomplete: `range "5 1"` (accepted, see F51) then rejects the value 1 -/
+/-- without the ascending order the walk is incomplete: `range "5 1"` (accepted, see F75) then rejects the value 1 -/
 example : validate [⟨5, 5⟩, ⟨1, 1⟩] 1 = false := by decide
 
 /-! ## a derived restriction only narrows -/
@@ -37,7 +37,7 @@ def RangeSubsetSound (fx : RFix) : Prop :=
   ∀ (t : RType) (base : List Part) (arg : Bytes) (parts : List Part),
     compileRange fx t (some base) arg = .ok parts → ∀ p ∈ parts, Within p base
 
-/-- **F51.** False: in `range "1 100"` the second number opens a new part without `|`, `parts_done` is not advanced, and
+/-- **F75.** False: in `range "1 100"` the second number opens a new part without `|`, `parts_done` is not advanced, and
 the subset walk (which runs to `parts_done`) never looks at the part `100` — accepted against the base `1..10`. -/
 theorem range_subset_sound_fails : ¬ RangeSubsetSound {} := by
   intro h
@@ -78,7 +78,7 @@ example : loop {} int8 (some [⟨1, 10⟩]) 8 [0x32, 0x2e, 0x2e, 0x35, 0x7c, 0x3
 /-- widening `range "2..11"` of `1..10` is rejected -/
 example : compileRange {} int8 (some [⟨1, 10⟩]) [0x32, 0x2e, 0x2e, 0x31, 0x31] = .error .valid := rfl
 
-/-- with fixes/F51.diff the witness `1 100` is a syntax error -/
+/-- with fixes/F75.diff the witness `1 100` is a syntax error -/
 example : compileRange { f51 := true } int8 (some [⟨1, 10⟩]) [0x31, 0x20, 0x31, 0x30, 0x30] = .error .valid := rfl
 
 /-! ## the parser never reads outside its arrays -/
@@ -132,10 +132,10 @@ example : compileRange { f30 := true } int8 (some [⟨1, 10⟩]) [0x6d, 0x69, 0x
 
 /-! ## with the two repairs: every argument -/
 
-/-- **With fixes/F30.diff and fixes/F51.diff**, for EVERY type, base and byte string: if the part parser accepts, its
+/-- **With fixes/F30.diff and fixes/F75.diff**, for EVERY type, base and byte string: if the part parser accepts, its
 part counter equals the number of parts and the parts are ascending (loop invariant
 `parts_done ≤ COUNT(parts) ≤ parts_done + 1`, which the unrepaired code breaks exactly at `|` — F30 — and where a new
-part is opened — F51). -/
+part is opened — F75). -/
 theorem range_parse_invariant_fixed (fx : RFix) (h30 : fx.f30 = true) (h51 : fx.f51 = true) (t : RType)
     (base : Option (List Part)) (arg : Bytes) (parts : List Part) (done : Nat)
     (h : loop fx t base (arg.length + 1) arg {} = .ok (parts, done)) :
@@ -215,7 +215,7 @@ example : compileRange { f30 := true, f51 := true } int8 (some [⟨1, 10⟩]) [0
 def RangeParseCorrect (fx : RFix) : Prop :=
   ∀ (t : RType) (arg : Bytes) (parts : List Part), compileRange fx t none arg = .ok parts → ∃ a : RangeA, a.render = arg
 
-/-- **F53.** False, with or without the repairs: `range "+2"` is accepted (as 2), but no `range-arg` starts with `+`. -/
+/-- **F77.** False, with or without the repairs: `range "+2"` is accepted (as 2), but no `range-arg` starts with `+`. -/
 theorem range_parse_correct_fails (fx : RFix) : ¬ RangeParseCorrect fx := by
   intro h
   have hc : compileRange fx int8 none [0x2b, 0x32] = .ok [⟨2, 2⟩] := by
